@@ -503,8 +503,8 @@ func GuardedByEq(x ssa.Instruction, want bool, pa, pb func(ssa.Value) bool) bool
 func Returns(fn *ssa.Function) []*ssa.Return {
 	var out []*ssa.Return
 	for _, b := range fn.Blocks {
-		if len(b.Instrs) == 0 {
-			continue
+		if len(b.Instrs) == 0 || b == fn.Recover {
+			continue // the recover block of functions with defer is not an exit of any normal path
 		}
 		if r, ok := b.Instrs[len(b.Instrs)-1].(*ssa.Return); ok {
 			out = append(out, r)
